@@ -291,7 +291,7 @@ func VerifC20Adjacency() {
 	if u1 == "" && u2 == "" && u3 == "" && (b == " " && (operand[0] == '-' || operand[0] == '+')) {
 		right = "(" + right + ")"
 	}
-	if b == " " && (u1 == "-" || u1 == "+" || (u1 == "" && (u2 == "-" || u2 == "+")) ) {
+	if b == " " && (u1 == "-" || u1 == "+" || (u1 == "" && (u2 == "-" || u2 == "+"))) {
 		right = "(" + right + ")"
 	}
 	src := "BEGIN { y = a " + b + " " + right + " }"
@@ -317,8 +317,49 @@ func VerifC20Programs() {
 		`BEGIN { x = sub(/a/, "b"); y = gsub(/a/, "b", $1); split(s, arr); split(s, arr, ","); z = sprintf("%d", 1); close("f"); system("c"); fflush() }`,
 		`{ } BEGIN { } END { } /x/`,
 		`BEGIN { x = -1; y = - 1; z = !x; w = !(x ~ y); v = !x ~ y; u = 2 ^ -3; t = -2 ^ 2; s = a - -b; r = a + +b }`,
+		`function f(x) { return x } BEGIN { getline (a[k]); getline (f(x)); "cmd" | getline (a[k]); getline (x); getline ($1); getline (x) < "f"; getline x (y) }`,
+		`BEGIN { if (a) x; else { if (b) y; z }; if (a) x; else { if (b) y }; if (a) x; else if (b) y; else z; if (a) x; else { if (b) y; else z; w } }`,
+		`BEGIN { if (a) { if (b) x } else y; if (a) if (b) x; else y; if (a) { if (b) x; else y } }`,
+		`BEGIN { x = (f(1)) (a[1]) ($1) (length(z)); y = -(a[1]); z = (a[1])++; w = !(f(2)) } function f(p) { return p }`,
+		`BEGIN { while (a) if (b) break; else continue; for (;;) { if (a) break }; do if (a) x; else y; while (b) }`,
 	}
 	// arr[1][2] is not AWK; keep the list to accepted programs only (rejected ones are skipped by verifRoundTrip)
 	i := verifIntRange(0, len(progs)-1)
 	verifRoundTrip(progs[i], "program")
+}
+
+// print / printf with a parenthesised argument list whose arguments contain > or | (a comparison or a command
+// getline there is only possible inside the parentheses): the printed form must keep them grouped
+func VerifC20PrintLists() {
+	args := []string{`a > b`, `a`, `"cmd" | getline`, `c = d > e`, `a ? b > c : d`, `!(a > b)`, `(a > b)`, `a in arr`, `-a > b`, `a < b`, `a >= b`, `"cmd" | getline x`, `a b > c`, `$1 > 2`, `x y | getline`, `f(a > b)`, `arr[a > b]`, `a > b ? c : d`}
+	n := verifIntRange(1, 3)
+	list := ""
+	for i := 0; i < n; i++ {
+		if i > 0 {
+			list += ", "
+		}
+		list += args[verifIntRange(0, len(args)-1)]
+	}
+	kw := []string{"print", "printf"}[verifIntRange(0, 1)]
+	dest := []string{"", ` > "f"`, ` >> "f"`, ` | "out"`}[verifIntRange(0, 3)]
+	src := "function f(p) { return p } BEGIN { " + kw + " (" + list + ")" + dest + " }"
+	verifRoundTrip(src, "print with a parenthesised list")
+}
+
+// numeric literals: the printed literal is again a numeric literal (same tree) and printing is idempotent
+func VerifC20Numbers() {
+	lits := []string{"1e999", "9223372036854775808", "9223372036854775807", "123456789.5", "1e19", "0.1234567", "1e-7", "123456.7", "999999.5", "1e300", "1.5e300",
+		"0.000001", "1234567", "1234567.4", "4611686018427387904.5", "1e15", "1e16", "1e21", "0.5", "100", "0", "1.0", "017", "1e+5", ".5", "5.", "1e6", "999999.4999", "2147483648", "18446744073709551616"}
+	lit := lits[verifIntRange(0, len(lits)-1)]
+	ctx := []string{"BEGIN { x = LIT }", "BEGIN { x = -LIT }", "BEGIN { x = a - LIT }", "BEGIN { print LIT, -LIT; x = a LIT }", "$1 == LIT { x = LIT + LIT }", "BEGIN { x = a[LIT]; $LIT = 1 }"}[verifIntRange(0, 5)]
+	src := ""
+	for i := 0; i < len(ctx); i++ {
+		if i+3 <= len(ctx) && ctx[i:i+3] == "LIT" {
+			src += lit
+			i += 2
+		} else {
+			src += string(ctx[i])
+		}
+	}
+	verifRoundTrip(src, "numeric literal")
 }
